@@ -172,6 +172,8 @@ def execute(case):
 
     glyphs = {"a": {"cs": [layout_gen.box()], "comps": [], "anchors": [], "w": 500 * 1024, "h": 0, "u": [0x61]}}
     if "vfInfo" in case:
+        if int(case["cid"].rsplit("-", 1)[1]) % 2:
+            return _execute_vfs(case, glyphs)
         return [_execute_vf(case, glyphs)]
     font = absfont.build_font({"glyphs": glyphs, "info": dict(case["info"])}, case["lib"])
     info = case["info"]
@@ -265,6 +267,76 @@ def _execute_vf(case, glyphs):
             names[str(nr.nameID)] = _cps(nr.toUnicode())
     rec["ret"] = {"num": num, "names": names, "reloaded": True}
     return rec
+
+
+def _execute_vfs(case, glyphs):
+    """Two <variable-font>s cut from one designspace whose masters carry DIFFERENT font info: one keeps the document's
+    default location, the other moves its default to the second master (userdefault) or pins the axis there; both have
+    public.fontInfo overrides.  Each one's tables derive from ITS default master's info plus its overrides."""
+    import copy
+
+    import ufo2ft
+
+    from .. import dsbuild
+
+    base_info = dict(case["info"])
+    base_info.setdefault("familyName", "VF Test")
+    base_info.pop("postscriptFontName", None)
+    for a in list(BIT_ATTRS) + list(MORE_NUM) + list(MORE_STR):
+        base_info.pop(a, None)
+    base_info.setdefault("styleName", "Regular")
+    bold_info = dict(base_info)
+    # the second master sets a few attributes of its own (numbers shifted, names replaced)
+    bold_info["styleName"] = "Bold" if base_info["styleName"] != "Bold" else "Heavy"
+    bold_info["ascender"] = (base_info.get("ascender") or 800) + 13
+    bold_info["xHeight"] = (base_info.get("xHeight") or 500) + 7
+    bold_info["openTypeOS2TypoLineGap"] = (base_info.get("openTypeOS2TypoLineGap") or 0) + 11
+    bold_info["postscriptUnderlineThickness"] = (base_info.get("postscriptUnderlineThickness") or 50) + 4
+    bold_info["openTypeNamePreferredFamilyName"] = "Second Master Family"
+    g2 = copy.deepcopy(glyphs)
+    g2["a"]["w"] = 600 * 1024
+    masters = [{"loc": {"Weight": 400}, "ufo": {"glyphs": glyphs, "info": dict(base_info)}, "name": "m0"},
+               {"loc": {"Weight": 700}, "ufo": {"glyphs": g2, "info": dict(bold_info)}, "name": "m1"}]
+    over = dict(case["vfInfo"])
+    pinned = False        # (pinning the only axis leaves no axis: not a variable font)
+    vfs = [{"name": "KeepVF", "lib": {"public.fontInfo": dict(over)}},
+           {"name": "ShiftVF", "lib": {"public.fontInfo": dict(over)}, "subsets": {"Weight": {"value": 700} if pinned else {"default": 700}}}]
+    if len(over) % 3 == 0:
+        vfs.reverse()
+    fam = {"axes": [{"name": "Weight", "tag": "wght", "min": 400, "default": 400, "max": 700}], "masters": masters, "variableFonts": vfs}
+    ds = dsbuild.build_designspace(fam, case["lib"])
+    recs = []
+    try:
+        fn = ufo2ft.compileVariableTTFs if case["flavor"] == "tt" else ufo2ft.compileVariableCFF2s
+        outs = fn(ds, useProductionNames=False)
+        err = None
+    except Exception as e:  # noqa
+        outs, err = {}, e
+    for vfname, minfo in (("KeepVF", base_info), ("ShiftVF", bold_info)):
+        info = dict(minfo)
+        info.update(over)
+        rec = {"tid": f"{case['cid']}/{vfname}", "present": sorted(a for a in info if a in NUM_ATTRS or a in STR_ATTRS), "flavor": case["flavor"],
+               "num": {a: absfont.to_scaled(v, 4) for a, v in info.items() if a in NUM_ATTRS},
+               "str": {a: _cps(v) for a, v in info.items() if a in STR_ATTRS}, "_vf": True}
+        if err is not None or vfname not in outs:
+            rec["ret"] = {"err": type(err).__name__ if err is not None else "MissingVF"}
+            rec["_msg"] = str(err)[:200]
+            recs.append(rec)
+            continue
+        data, f2 = project.save_reload(outs[vfname])
+        hh, os2, hd, post = f2["hhea"], f2["OS/2"], f2["head"], f2["post"]
+        num = {"unitsPerEm": hd.unitsPerEm, "hheaAscent": hh.ascent, "hheaDescent": hh.descent, "hheaLineGap": hh.lineGap,
+               "caretSlopeRise": hh.caretSlopeRise, "caretSlopeRun": hh.caretSlopeRun, "caretOffset": hh.caretOffset,
+               "sTypoAscender": os2.sTypoAscender, "sTypoDescender": os2.sTypoDescender, "sTypoLineGap": os2.sTypoLineGap,
+               "usWinAscent": os2.usWinAscent, "usWinDescent": os2.usWinDescent, "sxHeight": os2.sxHeight, "sCapHeight": os2.sCapHeight,
+               "underlineThickness": post.underlineThickness, "underlinePosition": post.underlinePosition}
+        names = {}
+        for nr in f2["name"].names:
+            if nr.platformID == 3 and nr.langID == 0x409 and nr.nameID < 256:
+                names[str(nr.nameID)] = _cps(nr.toUnicode())
+        rec["ret"] = {"num": num, "names": names, "reloaded": True}
+        recs.append(rec)
+    return recs
 
 
 def nontrivial(rec):
